@@ -46,6 +46,8 @@ fn main() {
         let case = &v["case"];
         let code = match prop.as_str() {
             "C20" => nqverif::c20::replay(case),
+            "C06" => nqverif::c06::replay(case),
+            "C07" => nqverif::c07::replay(case),
             _ => {
                 println!("{}", serde_json::to_string_pretty(case).unwrap());
                 0
@@ -55,6 +57,8 @@ fn main() {
     }
     let code = match prop.as_str() {
         "C20" => nqverif::c20::run(&args),
+        "C06" => nqverif::c06::run(&args),
+        "C07" => nqverif::c07::run(&args),
         _ => {
             eprintln!("MACHINERY unknown property {prop}");
             2
